@@ -63,7 +63,7 @@ func (i *Ignore) load(rootGoitPath string) error {
 func (i *Ignore) IsIncluded(path string, index *Index) bool {
 	target := path
 	info, err := os.Stat(path)
-	if os.IsNotExist(err) {
+	if err != nil { // not there (also when a parent is not a directory)
 		if len(index.GetEntriesByDirectory(path)) > 0 {
 			target = fmt.Sprintf("%s/", path)
 		}
